@@ -18,6 +18,7 @@
 #include "mp/problem.h"
 #include "mp/solver-io.h"
 #include "mp/flat/expr_affine.h"
+#include "mp/flat/expr_quadratic.h"
 
 namespace {
 typedef mp::internal::NLProblemBuilder<mp::Problem> NLPB;
@@ -45,6 +46,19 @@ int main() {
     std::istringstream is(line);
     std::string fn, kv;
     is >> fn;
+    if (fn == "quad_sort_terms") {     // quad_sort_terms <coef> <var1> <var2> ... : the real mp::QuadTerms::sort_terms()
+      mp::QuadTerms qt;
+      long long c, a, b;
+      while (is >> c >> a >> b) qt.add_term((double)c, (int)a, (int)b);
+      qt.sort_terms();
+      std::string out;
+      for (int i = 0; i < qt.size(); ++i) {
+        if (i) out += ",";
+        out += std::to_string(qt.var1(i)) + "*" + std::to_string(qt.var2(i)) + ":" + std::to_string((long long)qt.coef(i));
+      }
+      std::puts(out.c_str());
+      continue;
+    }
     if (fn == "sort_terms") {          // sort_terms <var> <coef> ... : the real mp::LinTerms::sort_terms()
       mp::LinTerms lt;
       long long v, c;
